@@ -380,6 +380,23 @@ def run_chunk(chunk, ctx):
         def __str__(self):
             return f"\x01N{self.node}\x01" if self.node is not None else str(self.item)
 
+        # no symbolic links in the model: resolving / making absolute names the same entry
+        def resolve(self, strict=False):
+            return self
+
+        def absolute(self):
+            return self
+
+        def __eq__(self, o):
+            if not isinstance(o, FakePath):
+                return NotImplemented
+            if self.node is not None or o.node is not None:
+                return self.node == o.node
+            return str(self.item) == str(o.item)
+
+        def __hash__(self):
+            return hash(self.node if self.node is not None else str(self.item))
+
         __fspath__ = __str__
 
         def __getattr__(self, a):
